@@ -166,8 +166,17 @@ func (s *stubManager) Get(ctx context.Context, rt xdsresource.ResourceType, name
 	}
 	if r, ok := s.res[k]; ok {
 		if nr, swap := s.afterGet[k]; swap {
-			s.res[k] = nr
+			// an update of this resource lands right after the read: handlers first, then the data (as the manager does)
 			delete(s.afterGet, k)
+			hs := append([]xdsresource.XDSUpdateHandler(nil), s.handlers[rt]...)
+			s.mu.Unlock()
+			for _, h := range hs {
+				if res, ok := nr.(xdsresource.Resource); ok {
+					h(map[string]xdsresource.Resource{name: res})
+				}
+			}
+			s.mu.Lock()
+			s.res[k] = nr
 		}
 		return r, nil
 	}
